@@ -16,8 +16,8 @@ def run(chk):
         build_pqh(chk.log)
         pr = proof_stage(chk, MODULE, THEOREMS)
     pair = Pair(chk.log)
-    zs = filelevel.load_zoos(pair, workloads.ZOOS)
-    raw, meta = workloads.file_cases(chk, zs, thorough)
+    zs = filelevel.load_zoos(pair, workloads.WRITER_ZOOS)
+    raw, meta = workloads.file_cases(chk, zs, thorough, zoos=workloads.WRITER_ZOOS)
     # histories with empty writes / pending records too: validity must hold for every history
     g = zoolib.Gen(chk.rng, mode="pool")
     for name, z in zs.items():
